@@ -3,6 +3,7 @@
 // dimension of every *_simple function first, then those functions join the pool — their documented protocol)
 // exit 0 = no race report and concurrent == sequential; 66 = TSan report (halt_on_error); 3 = output mismatch / table modified.
 #include <pthread.h>
+#include <unistd.h>
 
 #include <cmath>
 #include <cstdio>
@@ -166,6 +167,7 @@ static uint64_t hash_obj(const void* p, size_t n) { return vh::fnv1a(p, n); }
 
 int main(int argc, char** argv) {
   if (argc < 6) return 2;
+  alarm(180);  // a thread program takes well under a second; a child still running after 3 minutes is hung (reported by the parent)
   const uint64_t k = strtoull(argv[1], 0, 10);
   const int T = atoi(argv[2]), ncalls = atoi(argv[3]), mode = atoi(argv[4]);
   const uint64_t seed = strtoull(argv[5], 0, 10);
